@@ -308,7 +308,13 @@ func programs(r *vcore.Run) {
 		rng := r.Rand(fmt.Sprintf("prog/%d", i))
 		f := fields[i%len(fields)]
 		nIn := 1 + rng.IntN(4)
-		prog := progs.Random(rng, nIn, 3+rng.IntN(r.Pick(25, 58)), f.mod.BitLen())
+		var prog *progs.Program
+		if i%2 == 0 {
+			prog = progs.Random(rng, nIn, 3+rng.IntN(r.Pick(25, 58)), f.mod.BitLen())
+		} else { // with literal constants: constant-folding and coefficient paths of the builders
+			prog = progs.RandomWithLits(rng, nIn, 3+rng.IntN(r.Pick(25, 58)), f.mod.BitLen())
+			nIn = len(prog.Inputs)
+		}
 		// assignments
 		var assigns [][]*big.Int
 		na := r.Pick(6, 12)
@@ -318,6 +324,7 @@ func programs(r *vcore.Run) {
 				for k := range t {
 					in[k] = big.NewInt(int64(t[k]))
 				}
+				prog.FillLits(in, f.mod)
 				assigns = append(assigns, in)
 			})
 		} else {
@@ -326,6 +333,7 @@ func programs(r *vcore.Run) {
 				for q := range in {
 					in[q] = progs.EdgeValue(rng, f.mod)
 				}
+				prog.FillLits(in, f.mod)
 				assigns = append(assigns, in)
 			}
 		}
@@ -374,6 +382,9 @@ func programs(r *vcore.Run) {
 				break
 			}
 			ci := rng.IntN(nIn)
+			if prog.Inputs[ci] == progs.Const {
+				continue
+			}
 			p2 := *prog
 			p2.Inputs = append([]progs.Kind{}, prog.Inputs...)
 			p2.Inputs[ci] = progs.Const
